@@ -10,6 +10,7 @@ import StathamModel.Spec.Draft6
 import StathamModel.Good
 import StathamModel.SerJson
 import StathamModel.ToSchema
+import StathamModel.Lemmas.ParseNF
 import StathamModel.Orderer
 import StathamModel.Py.Repr
 import StathamModel.Py.EvalTree
@@ -169,7 +170,8 @@ def handle (req : Json) : R Json := do
     | .error e => pure (Json.mkObj [("parse", "err"), ("kind", perrName e)])
     | .ok el =>
       match serializeJson [el] [] with
-      | .ok j => pure (Json.mkObj [("parse", "ok"), ("r", "ok"), ("json", encVal j), ("elem", encElem el)])
+      | .ok j => pure (Json.mkObj [("parse", "ok"), ("r", "ok"), ("json", encVal j), ("elem", encElem el),
+          ("nf_good", nfGood cx schema), ("nf", nfB cx (parseE cx schema))])
       | .error _ => pure (Json.mkObj [("parse", "ok"), ("r", "err"), ("elem", encElem el)])
   | "to_schema" => do
     -- the schema-level model of the serializer against the (dereferenced) output of the real `serialize_json`;
